@@ -211,8 +211,13 @@ def run_unit(eng, lang, unit, **kw):
     case['depth'] = depth0
     # termination measure of the mutual recursion: the depth counter is restored on exit and every recursive
     # request is issued deeper than the unit was entered (or with the variable generator excluded)
-    out.append(('C18', Ob('depth-restored|%s' % unit, w.g.depth == depth0, dict(case, depth_after=w.g.depth))))
+    if res is not None:       # (None: the unit wanted to create a declaration and the harness cut the path)
+        out.append(('C18', Ob('depth-restored|%s' % unit, w.g.depth == depth0, dict(case, depth_after=w.g.depth))))
     slack = [r for r in w.requests if not (r['depth'] > depth0 or r['exclude_var'] or r['gen_bottom'])]
+    if unit in ('gen_func_call', 'gen_field_access'):
+        # the receiver of a call / field access is requested at the entry depth: this edge of the recursion is NOT
+        # covered by the measure (the generator's own comments note that a recursion error may occur there)
+        slack = [r for r in slack if not (r['type'] is not None and getattr(r['type'], 'name', None) in w.classes)]
     if unit == 'gen_assignment':
         # the assigned value is requested at the entry depth, but for a non-void type: the dispatcher selects
         # gen_assignment for the void type only, every other generator deepens
@@ -299,7 +304,7 @@ def c_gen_assignment(w, etype, subtype, res, case):
         cls = w.classes.get(getattr(rt, 'name', None))
         fld = None
         if cls is not None:
-            fld = next((x for x in cls.fields if x.name == res.name), None)
+            fld = next((x for x in inherited(w, cls, 'fields') if x.name == res.name), None)
         out.append(('C05', Ob('gen_assignment|field-exists-and-not-final', fld is not None and not fld.is_final,
                               dict(case, receiver_type=str(rt), field=res.name))))
         if fld is None:
@@ -479,6 +484,17 @@ def _receiver_type(w, recv, out, case, unit):
     return None
 
 
+def inherited(w, cls, attr):
+    """own and inherited members of a class of the world (superclasses by declared name)"""
+    out, seen = [], set()
+    while cls is not None and cls.name not in seen:
+        seen.add(cls.name)
+        out += list(getattr(cls, attr))
+        sup = cls.superclasses[0].class_type.name if cls.superclasses else None
+        cls = w.classes.get(sup)
+    return out
+
+
 def c_gen_field_access(w, etype, subtype, res, case):
     out = []
     if res is None:
@@ -491,7 +507,7 @@ def c_gen_field_access(w, etype, subtype, res, case):
     if rt is None:
         return out
     cls = w.classes.get(getattr(rt, 'name', None))
-    fld = next((x for x in cls.fields if x.name == res.field), None) if cls is not None else None
+    fld = next((x for x in inherited(w, cls, 'fields') if x.name == res.field), None) if cls is not None else None
     out.append(('C05', Ob('gen_field_access|receiver-class-has-the-field', fld is not None,
                           dict(case, receiver_type=str(rt), field=res.field))))
     if fld is None:
@@ -530,9 +546,7 @@ def c_gen_func_call(w, etype, subtype, res, case):
     else:
         rt = _receiver_type(w, res.receiver, out, case, 'gen_func_call')
         cls = w.classes.get(getattr(rt, 'name', None)) if rt is not None else None
-        fn = next((x for x in (cls.functions if cls else []) if x.name == res.func), None)
-        if fn is None and cls is not None and cls.name == 'Bb':
-            fn = w.functions['ma'] if res.func == 'ma' else None       # inherited from Aa
+        fn = next((x for x in (inherited(w, cls, 'functions') if cls else []) if x.name == res.func), None)
         out.append(('C05', Ob('gen_func_call|receiver-class-has-the-method', fn is not None,
                               dict(case, receiver_type=str(rt), callee=res.func))))
     if fn is None:
